@@ -51,19 +51,6 @@ theorem nextBar_eq (s : WeightedMovingAverage F) (b : Bar F) : s.nextBar b = s.n
   unfold nextBar
   cases h : s.next b.close <;> simp [h]
 
-/-- `reset` rebuilds exactly the state `new` builds (state equality: any history, any values) -/
-theorem reset_eq (s : WeightedMovingAverage F) (h : WF s) : s.reset = some (fresh s.period) := by
-  unfold reset
-  simp [fill_all _ _ _ h.size, fresh]
-
 theorem period_fn_eq (s : WeightedMovingAverage F) : s.period_fn = s.period := rfl
-
-theorem display_eq (fmt : F → String) (s : WeightedMovingAverage F) :
-    display fmt s = "WMA(" ++ toString s.period ++ ")" := rfl
-
-theorem default_eq : (default_ : Option (WeightedMovingAverage F)) = some (fresh 9) := by
-  unfold default_
-  rw [new_eq]
-  simp [unwrap, isizeMax]
 
 end TaRs.Gen.WeightedMovingAverage
